@@ -192,9 +192,10 @@ def decanon(v, agent):
 # ----------------------------------------------------------------------------------------------
 
 class Agent:
-    def __init__(self, name, manager):
+    def __init__(self, name, manager, queue=None):
         self.name = name
         self.manager = manager
+        self.queue = queue     # a multiprocessing.Queue shared by all clients of the case
         self.h = {}            # handle name -> proxy
         self.children = {}     # child name -> Process
 
@@ -215,6 +216,15 @@ class Agent:
 
     def c_unpickle(self, data, name):
         p = pickle.loads(bytes.fromhex(data))
+        return canon(p, self, [name])
+
+    def c_qput(self, name):
+        # pickled later, by the queue's feeder thread
+        self.queue.put(self.h[name])
+        return None
+
+    def c_qget(self, name):
+        p = self.queue.get(timeout=15)
         return canon(p, self, [name])
 
     def c_delete(self, name):
@@ -293,7 +303,7 @@ class Agent:
             Process = multiprocessing.get_context('spawn').Process
         # handles: list of [name in this client, name in the child]
         p = Process(target=client_main,
-                    args=(child, addr, self.manager, [(hc, self.h[hp]) for hp, hc in handles], hold))
+                    args=(child, addr, self.manager, [(hc, self.h[hp]) for hp, hc in handles], hold, self.queue))
         p.start()
         self.children[child] = p
         return None
@@ -311,14 +321,14 @@ class Agent:
 _HELD = []
 
 
-def client_main(name, addr, manager, proxies, hold=False):
+def client_main(name, addr, manager, proxies, hold=False, queue=None):
     """a client process: connect to the director, execute its commands until 'exit'.
     `hold`: keep the agent (and with it every proxy it still has) referenced from a module global,
     so that the proxies are still alive when the process exits (only exit handlers can then give
     their references back); otherwise they die with this function's frame."""
     from multiprocessing.connection import Client
     _register()
-    ag = Agent(name, manager)
+    ag = Agent(name, manager, queue)
     if hold:
         _HELD.append(ag)
     info = []
@@ -358,7 +368,8 @@ class Director:
         self.settle = case.get('settle', 1.5)
         self.manager = ServerProcess()
         self.manager.start()
-        self.me = Agent('0', self.manager)
+        import multiprocessing
+        self.me = Agent('0', self.manager, multiprocessing.get_context('spawn').Queue())
         self.listener = Listener(family='AF_UNIX')
         self.addr = self.listener.address
         self.conns = {}
